@@ -285,7 +285,7 @@ pub fn run(ctx: &Ctx, stats: &mut Stats) {
         }
     }
     run_exhaustive(ctx, stats, "exh-nruns", nitems.into_iter(), &check);
-    let n = ctx.tier.pick(600_000, 6_000_000);
+    let n = ctx.tier.pick(3_000_000, 30_000_000);
     let max_len = ctx.tier.pick(2_000, 40_000);
     run_prop(ctx, stats, "random", n, strat(max_len), &check);
 }
